@@ -1,5 +1,5 @@
 #!/bin/bash
-# sweep.sh TIER [SEED...] : runs every check of MANIFEST.json at the given
+# sweep.sh TIER [SEED...] : runs every check (or those named in $CHECKS) of MANIFEST.json at the given
 # tier and seeds; prints one line per run and every VIOLATION line.
 cd "$(dirname "$0")"
 mkdir -p .work
@@ -7,7 +7,7 @@ tier=${1:-quick}; shift
 seeds=${*:-1}
 rc=0
 for seed in $seeds; do
-  for c in C01 C02 C03 C04 C05 C06 C07 C08 C09 C10 C11 C12 C13 C14 C15 C16 C17 C18 C19 C20; do
+  for c in ${CHECKS:-C01 C02 C03 C04 C05 C06 C07 C08 C09 C10 C11 C12 C13 C14 C15 C16 C17 C18 C19 C20}; do
     t0=$(date +%s)
     VERIF_SEED=$seed ./check $c $tier > .work/sweep.$c.$seed.out 2>&1; e=$?
     t1=$(date +%s)
